@@ -170,6 +170,25 @@ pub fn run(cfg: &RunCfg) -> PropRun {
     run.absorb(out);
     run.stats.exhaustive_subspaces.push(json!({"name": "boundary set (0,1,2,..,2^k-1,2^k,2^k+1 for k=2..49,MAX-1,MAX) ^3, fourth component cycling through the set", "values": n}));
 
+    // decimal-structured values (d*10^k, 10^k +- 1, m*10^k) in every position
+    let dv = crate::gen::version::decimal_values();
+    let dvr = &dv;
+    let out = enumerate(
+        cfg,
+        "decimal-structured",
+        move |shard, nsh| (0..dvr.len()).filter(move |i| i % nsh == shard),
+        move |i, st| {
+            let v = dvr[*i];
+            let w = dvr[(*i * 7 + 3) % dvr.len()];
+            for (a, b, c, d) in [(v, 0, 0, v), (0, v, 1, 0), (1, 2, v, w), (v, v, v, v), (w, v, 0, 1), (2, w, v, v)] {
+                check_values(a, b, c, d, true, st)?;
+            }
+            Ok(())
+        },
+    );
+    run.absorb(out);
+    run.stats.exhaustive_subspaces.push(json!({"name": "decimal-structured values in every position", "values": dv.len()}));
+
     // (c) random
     let total = cfg.pick(200_000, 5_000_000);
     let m = max_int();
@@ -183,6 +202,7 @@ pub fn run(cfg: &RunCfg) -> PropRun {
                 2 => select(boundary_values()),
                 2 => 0..=m,
                 2 => crate::gen::version::log_uniform(),
+                2 => crate::gen::version::decimal_structured(),
                 1 => 0..=u32::MAX as u64,
                 1 => 0..=u16::MAX as u64,
                 1 => 0..=255u64,
@@ -224,6 +244,16 @@ pub fn replay(campaign: &str, case: &Value) -> Result<(), Failure> {
                         check_values(a, b, c, d, true, &mut st)?;
                     }
                 }
+            }
+            Ok(())
+        }
+        "decimal-structured" => {
+            let i: usize = serde_json::from_value(case.clone()).map_err(bad)?;
+            let dv = crate::gen::version::decimal_values();
+            let v = dv[i];
+            let w = dv[(i * 7 + 3) % dv.len()];
+            for (a, b, c, d) in [(v, 0, 0, v), (0, v, 1, 0), (1, 2, v, w), (v, v, v, v), (w, v, 0, 1), (2, w, v, v)] {
+                check_values(a, b, c, d, true, &mut st)?;
             }
             Ok(())
         }
